@@ -190,8 +190,16 @@ func (g *c16Gen) attachment(a c16AttSpec, rule c16RuleSpec, name string, variant
 	if a.Namespaced {
 		if !rule.Namespaced {
 			md["namespace"] = "ns2" // a cluster-scoped target must say where
-		} else if r.Bool() {
-			md["namespace"] = "ns1"
+		} else {
+			// the four spellings of "in the target's namespace": explicit, absent, empty string, null
+			switch r.Intn(4) {
+			case 0:
+				md["namespace"] = "ns1"
+			case 1:
+				md["namespace"] = ""
+			case 2:
+				md["namespace"] = nil
+			}
 		}
 	}
 	if r.Chance(1, 3) {
@@ -1891,6 +1899,22 @@ func c16Corpus() []*c16Scenario {
 		out = append(out, &c16Scenario{Family: "corpus", Features: []string{"corpus-bare-target", "response-changes-nothing"},
 			Ctl:    c16CtlSpec{Name: fmt.Sprintf("corpus10d%d", j), Rules: []c16RuleSpec{bareRule}},
 			Target: pod(v.labels, v.annots, c16J{"phase": "P"}), Hook: v.h, Rounds: []c16RoundSpec{{}, {}}})
+	}
+	// 10e. a desired attachment without a namespace lands in the target's namespace, however "without" is spelt
+	{
+		nsAtt := func(name string, ns interface{}, set bool) c16J {
+			o := cm(name, "", "1")
+			if set {
+				o["metadata"].(map[string]interface{})["namespace"] = ns
+			}
+			return o
+		}
+		out = append(out, &c16Scenario{Family: "corpus", Features: []string{"corpus-namespace-spellings"},
+			Ctl:    c16CtlSpec{Name: "corpus10e", Rules: []c16RuleSpec{podRule}, Attachments: []c16AttSpec{inplaceCM}},
+			Target: pod(c16J{"managed": "yes"}, c16J{"decorate": "yes"}, nil),
+			Hook: c16HookProgram{Kind: "const", Attachments: []c16J{nsAtt("ns-absent", nil, false), nsAtt("ns-empty", "", true),
+				nsAtt("ns-null", nil, true), nsAtt("ns-explicit", "ns1", true)}},
+			Rounds: []c16RoundSpec{{}, {}}})
 	}
 	// 11. the update strategy of the attachment rule decides what happens to a differing attachment:
 	//     core-group kind (ConfigMap) and named-group kind (Gadget) under InPlace, Recreate and OnDelete;
